@@ -52,6 +52,8 @@ def run_scenario_once(binary, faults, idx):
     ls = None if seq[0] == 'refuse' else listener(port)
     # 'long' = 'frames' on a connection that stays up longer than delete_after (here 8 s), its aircraft heard every second
     dopt = ['-d', '8'] if 'long' in seq else []
+    if idx % 2 == 0:
+        dopt += ['-c']            # every other scenario with the DF counters on (they see every frame, also those of formats 24-31)
     proc = subprocess.Popen([binary, '-t', '127.0.0.1:%d' % port, '--update=-1', '-i', 'e'] + dopt, stdout=subprocess.PIPE, stderr=subprocess.DEVNULL)
     buf = bytearray()
 
@@ -99,7 +101,8 @@ def run_scenario_once(binary, faults, idx):
             if kind == 'junk':
                 stamp = b'@00A1B2C3D4E'
                 lines = [list(range(0x80, 0x100)), [0, 1, 2, 255], list(stamp) + [0xFF] + list(lines[0]), list(stamp[:-1]) + [0xC3, 0xA9] + list(lines[1]) + [59]] + \
-                    lines + [[0xC3, 0x28], [64] + [0xE2, 0x82, 0xAC] * 6]
+                    lines + [[0xC3, 0x28], [64] + [0xE2, 0x82, 0xAC] * 6] + \
+                    [list(('%02X' % ((dfx << 3) | 5) + '955260402C50160D455A500868'[:26]).encode()) for dfx in (24, 25, 27, 31, 19, 22)]
             payload = b''
             if kind != 'close':
                 payload = b''.join(bytes(l) + b'\n' for l in lines)
